@@ -177,9 +177,6 @@ func c02Authorizers(c *sup.Ctx) []c02Authz {
 	}
 	rules := [][]refdl.Rule{{}, {rAllowed2}}
 	checks := [][]refdl.Check{{}, {chk(q(fRightR))}}
-	if c.Thorough() {
-		checks = append(checks, []refdl.Check{chk(q(fAdmin))})
-	}
 	pls := policyLists(c02Policies(), 2)
 	if c.Quick() {
 		// quick: every single policy and every ordered pair of a 6-policy sub-alphabet
